@@ -703,3 +703,60 @@ Proof.
 Qed.
 
 End Top.
+
+(* ------------------------------------------------------------------ *)
+(** * List-level corollaries for [lcs_seq]                              *)
+(* ------------------------------------------------------------------ *)
+Section Seq.
+Context {A B : Type}.
+Variable eqfn : A -> B -> bool.
+Variable xs : list A.
+Variable ys : list B.
+
+(* the pair of indices p designates elements of xs and ys related by eqfn *)
+Definition matching_pair (p : Z * Z) : Prop :=
+  0 <= fst p /\ 0 <= snd p /\
+  exists a b, nth_error xs (Z.to_nat (fst p)) = Some a /\
+              nth_error ys (Z.to_nat (snd p)) = Some b /\ eqfn a b = true.
+
+(* ps is (the index list of) a common subsequence of xs and ys w.r.t. eqfn *)
+Definition seq_common_subseq (ps : list (Z * Z)) : Prop :=
+  StronglySorted lt2 ps /\ Forall matching_pair ps.
+
+Definition seq_eqf : Z -> Z -> bool :=
+  fun i j => match nth_error xs (Z.to_nat i), nth_error ys (Z.to_nat j) with
+             | Some a, Some b => eqfn a b
+             | _, _ => false
+             end.
+
+Lemma seq_common_subseq_iff ps :
+  seq_common_subseq ps <->
+  common_subseq seq_eqf (Z.of_nat (length xs)) (Z.of_nat (length ys)) ps.
+Proof.
+  split; intros [C F]; (split; [exact C|]); (eapply Forall_impl; [|exact F]); intros p.
+  - intros (H1 & H2 & a & b & Ha & Hb & Hab).
+    assert (Z.to_nat (fst p) < length xs)%nat by (apply nth_error_Some; rewrite Ha; discriminate).
+    assert (Z.to_nat (snd p) < length ys)%nat by (apply nth_error_Some; rewrite Hb; discriminate).
+    split; [lia|]. split; [lia|]. unfold seq_eqf. rewrite Ha, Hb. exact Hab.
+  - intros (H1 & H2 & H3). unfold seq_eqf in H3.
+    destruct (nth_error xs (Z.to_nat (fst p))) as [a|] eqn:Ha; [|discriminate].
+    destruct (nth_error ys (Z.to_nat (snd p))) as [b|] eqn:Hb; [|discriminate].
+    split; [lia|]. split; [lia|]. exists a, b. auto.
+Qed.
+
+Theorem lcs_seq_total : exists ps, lcs_seq eqfn xs ys = Some ps.
+Proof. apply (lcs_total seq_eqf); lia. Qed.
+
+Theorem lcs_seq_valid ps : lcs_seq eqfn xs ys = Some ps -> seq_common_subseq ps.
+Proof.
+  intros H. apply seq_common_subseq_iff. apply (lcs_valid seq_eqf); [lia|lia|exact H].
+Qed.
+
+Theorem lcs_seq_maximal ps qs :
+  lcs_seq eqfn xs ys = Some ps -> seq_common_subseq qs -> (length qs <= length ps)%nat.
+Proof.
+  intros H Hq. apply seq_common_subseq_iff in Hq.
+  eapply (lcs_maximal seq_eqf); [| |exact H|exact Hq]; lia.
+Qed.
+
+End Seq.
